@@ -30,7 +30,10 @@ SUPPORTS = {
 
 def run_witnesses(facts_key, repo="/repo"):
     """{witness name: {"ok": bool, "tests": n, "failed": [...]}}; cached per facts key"""
-    cache = os.path.join(VERIF, ".cache", "witness-%s.json" % facts_key)
+    import hashlib
+    with open(os.path.join(WDIR, "src", "lib.rs"), "rb") as fh:
+        wkey = hashlib.sha256(fh.read()).hexdigest()[:10]      # the witnesses themselves are part of the key
+    cache = os.path.join(VERIF, ".cache", "witness-%s-%s.json" % (facts_key, wkey))
     if os.path.isfile(cache):
         with open(cache) as fh:
             return json.load(fh)
